@@ -111,6 +111,9 @@ static void vp_parse_witnesses(const struct r3986 *R, size_t len)
 #ifdef VP_WIT_PORT
 	if (R->port >= 0 && R->has_userinfo) VP_WITNESS("parse: userinfo and port");
 #endif
+#ifdef VP_WIT_V6ONLY   /* '//[' + 4 bytes: "[::]" fits, the shortest IPvFuture literal "[v1.x]" does not */
+	if (R->host_bracketed && R->asked_v6) VP_WITNESS("parse: IPv6 literal");
+#endif
 #ifdef VP_WIT_V6
 	if (R->host_bracketed && R->asked_v6) VP_WITNESS("parse: IPv6 literal");
 	if (R->host_bracketed && !R->asked_v6) VP_WITNESS("parse: IPvFuture literal");
